@@ -398,3 +398,77 @@ class DotFlow(_Flow):
 
 KERNELS_C08 = [DotFlow()]
 KERNELS = KERNELS + KERNELS_C08
+
+
+class DotClassify(Kernel):
+    """region of dot(): the two loops that sort the axis names into batch / contracted / left-kept / right-kept"""
+    id = "C08.P.dot_classify"
+    prop = "C08"
+    file, module = F, M
+    qual = "dot/dot"
+    describe = ("axis classification of dot: batch = names of the left operand that also occur in the right operand and in the output, contracted = in both operands but not in the output, "
+                "left-kept = only in the left operand, right-kept = only in the right operand - each list sound and complete (its order is irrelevant: C08.P.dot_flow shows every list is used as ONE list everywhere); "
+                "no AssertionError when every axis that occurs in one operand only is an output axis (checked earlier by the semantic checks)")
+
+    def region(self, fnode):
+        import ast
+        body = fnode.body
+        a = [i for i, st in enumerate(body) if isinstance(st, ast.Assign) and ast.unparse(st) == "batch_axis_names = []"]
+        b = [i for i, st in enumerate(body) if isinstance(st, ast.For) and ast.unparse(st.iter) == "right_axis_names"]
+        if len(a) != 1 or len(b) != 1 or b[0] < a[0]:
+            raise LookupError("anchors `batch_axis_names = []` ... `for axis in right_axis_names:` not found in dot()")
+        return body[a[0] : b[0] + 1]
+
+    def setup(self, eng, bound=None):
+        nl, nr, no = z3.Ints("n_left n_right n_out")
+        L, R, O = z3.Array("left_axis_names", I, Obj), z3.Array("right_axis_names", I, Obj), z3.Array("out_axis_names", I, Obj)
+        self.nl, self.nr, self.no, self.L, self.R, self.O = nl, nr, no, L, R, O
+
+        def mem(arr, n, x):
+            k = fresh("k")
+            return z3.Exists([k], z3.And(0 <= k, k < n, z3.Select(arr, k) == x))
+
+        self.inL, self.inR, self.inO = (lambda x: mem(L, nl, x)), (lambda x: mem(R, nr, x)), (lambda x: mem(O, no, x))
+        self.cond = {"batch_axis_names": lambda x: z3.And(self.inR(x), self.inO(x)), "contract_axis_names": lambda x: z3.And(self.inR(x), z3.Not(self.inO(x))),
+                     "left_keep_axis_names": lambda x: z3.Not(self.inR(x)), "right_keep_axis_names": lambda x: z3.Not(self.inL(x))}
+
+        def sub(lst, src, i, cond):
+            """lst holds exactly the elements of src[0:i] that satisfy cond"""
+            t, u, j, j2 = fresh("t"), fresh("u"), fresh("j"), fresh("j2")
+            A = lambda q: z3.Select(lst.arr, q)  # noqa
+            return z3.And(lst.n >= 0,
+                          z3.ForAll([t], z3.Implies(z3.And(0 <= t, t < lst.n), z3.Exists([j], z3.And(0 <= j, j < i, z3.Select(src, j) == A(t), cond(A(t)))))),
+                          z3.ForAll([j], z3.Implies(z3.And(0 <= j, j < i, cond(z3.Select(src, j))), z3.Exists([t], z3.And(0 <= t, t < lst.n, A(t) == z3.Select(src, j))))))
+
+        self.sub = sub
+
+        def inv0(e, p, it):
+            return z3.And(*[sub(e.as_seq(p.lookup(nm), p, ek="obj"), L, it, self.cond[nm]) for nm in ("batch_axis_names", "contract_axis_names", "left_keep_axis_names")],
+                          e.as_seq(p.lookup("right_keep_axis_names"), p, ek="obj").n == 0)
+
+        def inv1(e, p, it):
+            ent = p.ghost["entry1"]
+            return sub(e.as_seq(p.lookup("right_keep_axis_names"), p, ek="obj"), R, it, self.cond["right_keep_axis_names"])
+
+        eng.invariants[0], eng.invariants[1] = inv0, inv1
+        eng.local_types = {nm: ("list", "obj") for nm in self.cond}
+        x = z3.Const("x", Obj)
+        pre = [nl >= 0, nr >= 0, no >= 0,
+               z3.ForAll([x], z3.Implies(z3.And(self.inL(x), z3.Not(self.inR(x))), self.inO(x))), z3.ForAll([x], z3.Implies(z3.And(self.inR(x), z3.Not(self.inL(x))), self.inO(x)))]
+        env = {"left_axis_names": SSeq(L, nl, "obj", "list"), "right_axis_names": SSeq(R, nr, "obj", "list"), "out_axis_names": SSeq(O, no, "obj", "list")}
+        return env, pre, {}
+
+    def post(self, eng, out, p):
+        if isinstance(out, Raise):
+            eng.oblige(f"post:no {out.cls}", p, z3.BoolVal(False), "post")
+            return
+        for nm, src, n in (("batch_axis_names", self.L, self.nl), ("contract_axis_names", self.L, self.nl), ("left_keep_axis_names", self.L, self.nl), ("right_keep_axis_names", self.R, self.nr)):
+            lst = eng.as_seq(p.lookup(nm), p, ek="obj")
+            eng.oblige(f"post:{nm} holds exactly its operand's names with the stated membership (sound and complete)", p, self.sub(lst, src, n, self.cond[nm]), "post")
+
+    def twin(self, tier):
+        return 0, []
+
+
+KERNELS_C08.append(DotClassify())
+KERNELS = KERNELS_C14 + KERNELS_C15 + KERNELS_C08
